@@ -311,8 +311,8 @@ def assignOverKind (pwd : Option Nat) : Kind :=
   | some v => Kind.ddef v
   | none => Kind.dtor
 
-/-- as the pinned code had it: all three `promise_with_default*` assignment operators went straight to
-`promise<T>::operator=`, which does `set_value(drop)` — the future of the replaced promise lost its default -/
+/-- as the pinned code had it (before `/repo` commit e4e0094): all three `promise_with_default*` assignment operators went
+straight to `promise<T>::operator=`, which does `set_value(drop)` — the future of the replaced promise lost its default -/
 def assignOverKindAsIs (_pwd : Option Nat) : Kind := Kind.dtor
 
 end Cocls.Chain
